@@ -58,6 +58,11 @@ type Config struct {
 	// frame and report it here instead of taking the test process down (id and incarnation of
 	// the goroutine, the panic value, the stack). The goroutine then ends.
 	OnPanic func(id, inc int, p any, stack string)
+	// StartStallDen > 0: a goroutine started by the code under test (a rewritten go statement, not
+	// one of the harness's own) is, with probability 1/StartStallDen (Faults stream), held back for
+	// a drawn simulated delay before its body runs - a thread that is late to be scheduled. Without
+	// it no simulated time can pass between a go statement and the first statement of the body.
+	StartStallDen int
 }
 
 // Sim is one simulated execution.
@@ -282,6 +287,13 @@ func Enter(id int) {
 	s.byGoid[gid] = g
 	s.mu.Unlock()
 	s.park(g, nil, g.entry)
+	if den := s.cfg.StartStallDen; den > 0 && g.Name == "" && s.Choose(Faults, den, "start-stall") == 0 {
+		d := [...]time.Duration{2 * time.Millisecond, 60 * time.Millisecond, 700 * time.Millisecond}[s.Choose(Faults, 3, "start-stall-delay")]
+		s.Count("fault.goroutine_start_stall")
+		s.trace("goroutine %d held back %v before its first statement", g.ID, d)
+		time.Sleep(d)
+		s.park(g, nil, g.entry)
+	}
 }
 
 // Exit may be deferred by spawned goroutines to keep the registry small (optional).
